@@ -128,7 +128,7 @@ func shortQual(p *types.Package) string { return p.Name() }
 func (x *Exec) pushFrame(st *State, site ssa.Instruction, kind frameKind, cl CL, args []Val, aux interface{}) {
 	fn := cl.Fn
 	nf := &Frame{fn: fn, vals: map[ssa.Value]Val{}, names: map[string]Val{}, parent: st.fr, block: fn.Blocks[0], kind: kind,
-		callSite: site, aux: aux, variant: map[int]string{}, loopOld: map[int]Heap{}, depth: st.fr.depth + 1, closure: &cl}
+		callSite: site, aux: aux, variant: map[int]string{}, loopOld: map[int]Heap{}, depth: st.fr.depth + 1, closure: &cl, locals: map[*ssa.Alloc]Val{}}
 	if len(args) != len(fn.Params) {
 		panic(fmt.Sprintf("internal: %s: %d args for %d params", fn, len(args), len(fn.Params)))
 	}
